@@ -18,8 +18,9 @@ type Spec struct {
 	Seed    uint32 `json:"seed"`
 	OX      int    `json:"ox"` // origin of the visible rectangle
 	OY      int    `json:"oy"`
-	Pad     int    `json:"pad"`             // > 0: the image is a SubImage of one that is Pad pixels larger on every side (stride > width)
-	Ratio   string `json:"ratio,omitempty"` // ycbcr: 444 422 420 440 411 410
+	Pad     int    `json:"pad"`                   // > 0: the image is a SubImage of one that is Pad pixels larger on every side (stride > width)
+	Ratio   string `json:"ratio,omitempty"`       // ycbcr: 444 422 420 440 411 410
+	Transp  bool   `json:"transparent,omitempty"` // rgba / nrgba: about a quarter of the pixels are fully transparent (alpha 0)
 	Nil     bool   `json:"nil,omitempty"`
 	Empty   bool   `json:"empty,omitempty"` // rectangle of the given size without pixel storage
 }
@@ -170,6 +171,10 @@ func (s Spec) Build() image.Image {
 		for y := full.Min.Y; y < full.Max.Y; y++ {
 			for x := full.Min.X; x < full.Max.X; x++ {
 				r, g, b := at(x, y)
+				if s.Transp && hash2(s.Seed^0x7a, x, y)%4 == 0 {
+					m.SetNRGBA(x, y, color.NRGBA{r, g, b, 0})
+					continue
+				}
 				m.SetNRGBA(x, y, color.NRGBA{r, g, b, 255})
 			}
 		}
@@ -201,6 +206,10 @@ func (s Spec) Build() image.Image {
 		for y := full.Min.Y; y < full.Max.Y; y++ {
 			for x := full.Min.X; x < full.Max.X; x++ {
 				r, g, b := at(x, y)
+				if s.Transp && hash2(s.Seed^0x7a, x, y)%4 == 0 {
+					m.SetRGBA(x, y, color.RGBA{}) // premultiplied: alpha 0 means all channels 0
+					continue
+				}
 				m.SetRGBA(x, y, color.RGBA{r, g, b, 255})
 			}
 		}
